@@ -140,6 +140,9 @@ class Live(JupyterMixin, RenderHook):
             if self._started:
                 return
 
+            # nothing of this display is on the screen yet: forget the shape a previous
+            # run (or a render that was still in flight when it stopped) left behind
+            self._live_render._shape = None
             self.console.show_cursor(False)
             self._enable_redirect_io()
             self.console.push_render_hook(self)
@@ -177,8 +180,6 @@ class Live(JupyterMixin, RenderHook):
 
             if self.transient:
                 self.console.control(self._live_render.restore_cursor())
-            # the last frame is now permanent output (or erased): a later start() begins afresh
-            self._live_render._shape = None
             if self.ipy_widget is not None:  # pragma: no cover
                 if self.transient:
                     self.ipy_widget.close()
